@@ -50,4 +50,12 @@ PROPS = {
                 profiles=(["debug"], ["debug", "release"]), case_timeout=300,
                 rule="cases = (client channel_max, frame_max, heartbeat) x (server channel_max, frame_max, heartbeat): boundary grid chunks, random pair batches of 2000, end-to-end configurations; distinct = digest of the configuration (grid chunk / batch id); all non-trivial",
                 assumptions=["trusted base: the reference negotiation in harness/src/props/c15.rs"]),
+    "C19": dict(level="exploration",
+                level_text="Held on the executions produced (with one known finding, D13): URLs are assembled from components (scheme, user, password, host, port, vhost, query list; everything outside RFC 3986 'unreserved' percent-encoded), so the expectation is the component list and the url crate is not in the oracle. The hooked decode is compared for 60 000 (quick) / 1.2 M (thorough) URLs incl. one seeded defect per malformed URL and its specific error; Connection::open must answer InsecureUrl for amqp:// URLs; end to end, Connection::insecure_open against a loopback TCP broker must show the URL's credentials / mechanism in StartOk, its vhost in Open and its channel_max / heartbeat in TuneOk, and connection_timeout must end a silent server with ConnectionTimeout.",
+                level_note="Generator restrictions (false-alarm analysis): hosts are ASCII names / IPv4 / [::1] (the statement does not say hosts are decoded); vhosts '.' and '..' are not generated (dot-segments are removed by the URL standard); user/password/vhost are valid UTF-8; 'user:@host' and '+5'-style numbers are not generated; at most one defect per URL so the expected error is unambiguous; 'http' is only used with a host (special schemes need one to parse). Hook: verif::decode_url (Url::parse + populate_host_and_port + decode, as open() does).",
+                technique="runtime monitoring: constructive generator with component-list oracle on the hooked decoder + end-to-end wire observation over loopback TCP",
+                progress=False, abort=False, min_nontrivial=(100, 2000),
+                profiles=(["debug"], ["debug"]), case_timeout=300,
+                rule="cases = batches of 200 generated URLs (decode), batches of 50 host-less URLs with user info / port, end-to-end opens over loopback TCP, fixed forms from the statement; distinct = case id (each batch draws fresh URLs from its own generator stream); all non-trivial",
+                assumptions=["trusted base: the URL assembler/percent-encoder and expectation in harness/src/props/c19.rs", "127.0.0.1 and localhost are reachable (loopback TCP)"]),
 }
